@@ -5,8 +5,8 @@
 HERE="$(cd "$(dirname "$0")/.." && pwd)"; cd "$HERE"
 P=4; [ "$1" = "-P" ] && { P=$2; shift 2; }
 CHECKS="$@"
-rm -f /tmp/canarysweep_*.log
-ls canaries/*.diff | xargs -P $P -I{} bash -c 'f={}; n=$(basename $f .diff); VERIF_PROCS=4 tools/canary.sh cs_$n $f '"$CHECKS"' > /tmp/canarysweep_$n.log 2>&1'
+rm -f /tmp/canarysweep_*.log  # (results of an earlier sweep are overwritten)
+ls canaries/*.diff | ( [ -n "$CANARY_REVERSE" ] && sort -r || cat ) | xargs -P $P -I{} bash -c 'f={}; n=$(basename $f .diff); VERIF_PROCS=4 tools/canary.sh cs_$n $f '"$CHECKS"' > /tmp/canarysweep_$n.log 2>&1'
 quiet=$(cat /tmp/canarysweep_*.log | grep -c "exit=0 violations=0")
 und=$(cat /tmp/canarysweep_*.log | grep "exit=0 violations=0" | grep -vc "undecided=0")
 alarms=$(cat /tmp/canarysweep_*.log | grep -v "exit=0 violations=0")
